@@ -62,22 +62,27 @@ Proof.
       * replace (mid + 1)%nat with (S mid) by lia. split; lra.
 Qed.
 
-(* [G] for u in [U_p, U_num) and not within tol of U_num (the implementation's end shortcut), the binary search
-   terminates within its fuel and returns the same span as the linear search *)
+(* [G] for every u >= U_p the binary search terminates within its fuel and returns the span of the linear search *)
 Theorem binsearch_eq_linear (tol : R) (p num : nat) :
-  (p < num)%nat -> (num < length U)%nat -> knR U p <= u < knR U num -> tol < Rabs (knR U num - u) ->
+  (p < num)%nat -> (num < length U)%nat -> knR U p <= u ->
   find_span_binsearch Rops tol p U num u = Some (find_span_linear Rops p U num u).
 Proof.
-  intros Hp HL Hu Ht. unfold find_span_binsearch.
-  replace (S (Nat.pred num)) with num by lia. rewrite oabs_Rabs. rsimp. unfold Rleb.
-  destruct (Rle_dec (Rabs (knR U num - u)) tol); [lra|].
-  destruct (div2_bounds p (S num) ltac:(lia)) as [Hb1 Hb2].
-  assert (Hmid : (p < Nat.div2 (S (p + num)) <= num)%nat).
-  { rewrite Nat.div2_div. pose proof (Nat.div_mod (S (p + num)) 2 ltac:(lia)). pose proof (Nat.mod_upper_bound (S (p + num)) 2 ltac:(lia)). lia. }
-  destruct (loop_spec (S (S (length U))) p num (Nat.div2 (S (p + num)))) as [k [E [Hk Hi]]]; try lia; try exact Hu.
-  - destruct (Nat.eqb_spec (Nat.div2 (S (p + num))) num); lia.
-  - rewrite E. f_equal.
-    destruct (span_facts U u p num Hp HL Hu) as [Hk' Hi']. cbn zeta in *.
-    apply span_unique; try lia; assumption.
+  intros Hp HL Hlo. unfold find_span_binsearch.
+  replace (S (Nat.pred num)) with num by lia. rsimp. unfold Rleb.
+  destruct (Rle_dec (knR U num) u) as [Hend|Hin].
+  - (* at or beyond the domain end: both return num - 1 *)
+    f_equal. pose proof (find_span_linear_spec U u p num Hp HL Hlo) as H. cbn zeta in H.
+    destruct H as [Hk [_ [Hlt|[Hk' _]]]].
+    + exfalso. assert (knR U (S (find_span_linear Rops p U num u)) <= knR U num) by (apply Usorted; lia). lra.
+    + lia.
+  - assert (Hu : knR U p <= u < knR U num) by lra.
+    destruct (div2_bounds p (S num) ltac:(lia)) as [Hb1 Hb2].
+    assert (Hmid : (p < Nat.div2 (S (p + num)) <= num)%nat).
+    { rewrite Nat.div2_div. pose proof (Nat.div_mod (S (p + num)) 2 ltac:(lia)). pose proof (Nat.mod_upper_bound (S (p + num)) 2 ltac:(lia)). lia. }
+    destruct (loop_spec (S (S (length U))) p num (Nat.div2 (S (p + num)))) as [k [E [Hk Hi]]]; try lia; try exact Hu.
+    + destruct (Nat.eqb_spec (Nat.div2 (S (p + num))) num); lia.
+    + rewrite E. f_equal.
+      destruct (span_facts U u p num Hp HL Hu) as [Hk' Hi']. cbn zeta in *.
+      apply span_unique; try lia; assumption.
 Qed.
 End Bin.
